@@ -19,7 +19,7 @@ RULE = ("seeded random circuits (2-6 modes, 0-4 loss elements anywhere incl. los
         "backends; distinct = (lossy?, #loss modes, photon number, bunched?, heralded?, modes); non-trivial = "
         "lossy or bunched or heralded")
 MANDATORY = ["lossy_slos", "lossy_permanent", "vacuum_input", "total_loss_element", "bunched_input",
-             "heralded", "lossless", "seven_or_more_modes", "other_sampler_defaults_edited_in_place"]
+             "heralded", "lossless", "seven_or_more_modes", "other_sampler_defaults_edited_in_place", "herald_declared_in_place"]
 DECIDING = ["mon.sampler_dist_postconditions", "mon.backend_dist_postconditions:slos",
             "mon.backend_dist_postconditions:permanent", "cross_backend_comparisons"]
 BUDGET = {"quick": 25, "thorough": 420}
@@ -75,6 +75,8 @@ def run(ctx):
         k = c.input_modes
         hph = sum(c.heralds["input"].values())
         for _ in range(2):
+            k = c.input_modes                      # (a herald may have been declared in place by the previous round)
+            hph = sum(c.heralds["input"].values())
             nph = int(rng.integers(0, 5))
             if nph + hph > 5:
                 nph = max(0, 5 - hph)
@@ -112,10 +114,11 @@ def run(ctx):
             if total_loss: ctx.bucket("total_loss_element")
             if bunched: ctx.bucket("bunched_input")
             if heralded: ctx.bucket("heralded")
-            for old_s, old_d, cfg0 in pool[:3]:
+            for old_s, old_d, cfg0, fp0, in0 in pool[:3]:
                 try:
                     src0 = old_s.source
-                    if (src0.brightness, src0.purity, src0.indistinguishability) == cfg0:
+                    if (src0.brightness, src0.purity, src0.indistinguishability) == cfg0 \
+                            and circmon.circuit_fingerprint(old_s.circuit) == fp0 and tuple(old_s.input_state) == in0:
                         ctx.count("earlier_objects_rechecked")
                         now = {tuple(st): p for st, p in old_s.probability_distribution.items()}
                         if now != old_d:
@@ -125,7 +128,7 @@ def run(ctx):
                 except Exception as e:  # noqa: BLE001
                     ctx.count("reread_raised:" + type(e).__name__)
             if len(dists) == 2:
-                pool.append((s, dict(dists["slos"]), (1, 1, 1)))
+                pool.append((s, dict(dists["slos"]), (1, 1, 1), circmon.circuit_fingerprint(c), tuple(occ)))
                 del pool[:-5]
                 ctx.count("cross_backend_comparisons")
                 kf = boson.n_fock(u.shape[0], nph + hph)
@@ -135,6 +138,26 @@ def run(ctx):
                 if worst > allow:
                     ctx.violation(f"permanent and slos distributions differ by {worst:.3g}", case=case,
                                   mechanism="backends_disagree", monitor="cross-backend comparison")
+            if dists and rng.random() < 0.3 and c.input_modes >= 2:
+                # a herald is declared on the circuit in place after the samplers exist; the matching shorter input is
+                # then assigned to the same sampler, which must give the distribution of the new configuration
+                try:
+                    nn = c.n_modes - len(c._internal_modes)
+                    free = [m for m in range(nn) if c._map_mode(m) not in c.heralds["input"]
+                            and c._map_mode(m) not in c.heralds["output"]]
+                    if free:
+                        c.herald(0, int(rng.choice(free)))
+                        new_in = State(random_state(rng, c.input_modes, min(nph, 2)))
+                        ctx.bucket("herald_declared_in_place")
+                        try:
+                            s.input_state = new_in
+                            _ = s.probability_distribution
+                        except Exception as e:  # noqa: BLE001
+                            ctx.violation(f"after declaring a herald in place, assigning the matching input / reading the "
+                                          f"distribution raised {type(e).__name__}: {e}", case=case,
+                                          mechanism="reconfiguration_rejected", monitor="driver")
+                except Exception as e:  # noqa: BLE001
+                    ctx.count("in_place_herald_raised:" + type(e).__name__)
             ctx.case((lossy, n_loss, nph, bunched, heralded, k), lossy or bunched or heralded, sample=case)
             drain_into(ctx, case)
     merge_stats(ctx)
